@@ -199,6 +199,18 @@ class Program(object):
         # type: () -> str
         """ Returns a string with commands formatted in the MPilot command file syntax. """
 
+        def escape_string(value):
+            # type: (str) -> str
+            """ Escapes the characters that would end or alter a quoted string when it is parsed again """
+
+            return (
+                value.replace("\\", "\\\\")
+                .replace('"', '\\"')
+                .replace("\n", "\\n")
+                .replace("\r", "\\r")
+                .replace("\t", "\\t")
+            )
+
         def serialize_value(value, argument, command):
             # type: (Any, Argument, Command) -> str
 
@@ -210,7 +222,7 @@ class Program(object):
             ):
                 return str(value)
             if isinstance(value, six.string_types):
-                return '"{}"'.format(value)
+                return '"{}"'.format(escape_string(value))
             else:
                 return str(value)
 
@@ -226,7 +238,10 @@ class Program(object):
             elif isinstance(argument.value, dict):
                 return "[\n{}\n    ]".format(
                     ",\n".join(
-                        '        "{}": "{}"'.format(key, value)
+                        '        "{}": "{}"'.format(
+                            escape_string(six.text_type(key)),
+                            escape_string(six.text_type(value)),
+                        )
                         for key, value in argument.value.items()
                     )
                 )
